@@ -156,6 +156,35 @@ func c09Verdict(sites []c09Site) (guarded bool, common []int, majority int, offe
 	return false, nil, majority, offenders
 }
 
+// c09Pairwise is the Go-side reading of the two-mutex discipline ("written under mu AND wmu, read
+// under either"): every two non-setup sites of which at least one can write share a lock.
+func c09Pairwise(sites []c09Site) bool {
+	var live []c09Site
+	for _, s := range sites {
+		if s.kind != "config" {
+			live = append(live, s)
+		}
+	}
+	canWrite := func(s c09Site) bool { return s.kind == "write" || s.kind == "call" }
+	for _, a := range live {
+		for _, b := range live {
+			if !canWrite(a) && !canWrite(b) {
+				continue
+			}
+			shared := false
+			for _, l := range a.locks {
+				if c09Holds(b, l) {
+					shared = true
+				}
+			}
+			if !shared {
+				return false
+			}
+		}
+	}
+	return true
+}
+
 // c09KnownOpenSites: the input classes of the two confirmed defects (DESIGN.md section 5 row 17).
 var c09KnownOpenSites = map[string]struct{ fn, class string }{
 	"Transport.pendingAltSvcs": {"Transport.checkAltSvc", "lockset-pendingAltSvcs-checkAltSvc"},
@@ -199,7 +228,7 @@ func c09AltSvcGuarded(t testing.TB) bool {
 // The property oracle is "guarded"; the two confirmed unguarded sites are classed.
 func TestVerif_C09_locksetfacts(t *testing.T) {
 	s := verifh.New(t, "C09", "locksetfacts",
-		"one case per anchored shared field (14 fields in 4 packages + one pseudo-field per …Locked calling convention): all syntactic access sites with the mutexes held there, regenerated from the source by tools/gofacts; oracle = some lock common to all non-setup sites; non-trivial = field with >= 2 sites")
+		"one case per anchored shared field (27 fields in 4 packages: HTTP/1.1 pool, Alt-Svc bookkeeping, HTTP/2 connection pool, the cc.mu-guarded demultiplexer state and the cc.wmu-guarded write side of an HTTP/2 ClientConn, its two-mutex peer settings, the HTTP/3 client map / transport / datagram stream table; + one pseudo-field per caller-holds function — …Locked convention, documented or inferred from all call sites): all syntactic access sites with the mutexes held there, regenerated from the source by tools/gofacts; oracle = some lock common to all non-setup sites, or (two-mutex state) every two sites of which one can write share a lock; non-trivial = field with >= 2 sites")
 	fields, lockNames, refused, err := c09LockFacts(t)
 	if err != nil {
 		t.Fatalf("cannot regenerate the lock-set facts: %v", err)
@@ -229,6 +258,10 @@ func TestVerif_C09_locksetfacts(t *testing.T) {
 		if guarded {
 			impl = "guarded " + verifh.IntList(common)
 			s.Count("guarded")
+		} else if c09Pairwise(f.sites) {
+			impl = "pairwise"
+			guarded = true
+			s.Count("pairwise-two-mutexes")
 		} else {
 			impl = "unguarded " + strconv.Itoa(maj) + " " + verifh.HexList(off)
 			s.Count("unguarded")
